@@ -72,6 +72,14 @@ fn run_one(scenario: &str, seed: u64, extra: &[String], replay_out: Option<&str>
                 None => {
                     let se = String::from_utf8_lossy(&o.stderr);
                     let tail: String = se.lines().rev().take(6).collect::<Vec<_>>().join(" | ");
+                    use std::os::unix::process::ExitStatusExt;
+                    if o.status.signal() == Some(libc_sigalrm()) {
+                        // the run armed alarm() for itself: the process was wedged beyond the reach of
+                        // its own watchdog (e.g. inside a corrupted allocator)
+                        r.verdict = "wedged".into();
+                        r.msg = format!("the run neither finished nor reported within its real-time limit and was killed (SIGALRM): {}", tail);
+                        return r;
+                    }
                     r.verdict = "crash".into();
                     r.msg = format!("simrun ended without a result (status {:?}): {}", o.status, tail);
                 }
@@ -146,7 +154,11 @@ fn sig_of(msg: &str) -> String {
 }
 
 fn is_bad(verdict: &str) -> bool {
-    matches!(verdict, "violation" | "hung" | "panic" | "crash")
+    matches!(verdict, "violation" | "hung" | "panic" | "crash" | "wedged")
+}
+
+fn libc_sigalrm() -> i32 {
+    14
 }
 
 // ------------------------------------------------------------------------------------------------
@@ -531,7 +543,11 @@ fn check_property(p: &Prop, tier: &str, runs_override: Option<u64>, only_scenari
         let r = &rs[0];
         let path = format!("{}/replays/{}-{}-{}.json", VERIF, p.id, r.scenario, r.seed);
         let mut replay_info = String::new();
-        if k < 4 {
+        if r.verdict == "wedged" {
+            // no second run (it would take the whole limit again): the seed is the replay
+            let _ = std::fs::write(&path, format!("{{\"property\":\"{}\",\"argv\":[\"{}\",\"{}\"],\"decisions\":[],\"faults\":[],\"verdict\":\"wedged\"}}\n", p.id, r.scenario, r.seed));
+            replay_info = "not minimised (a wedged run takes its whole real-time limit); the replay file holds the seed".to_string();
+        } else if k < 4 {
             // record: the same seed run again writes the schedule + fault trace
             let rec = run_one(&r.scenario, r.seed, &r.extra_args, Some(&path));
             if !(is_bad(&rec.verdict) || rec.verdict == "livelock") || sig_of(&rec.msg) != sig_of(&r.msg) {
